@@ -496,6 +496,27 @@ def tag(case, f):
     return None
 
 
+def lib_positions(ixrec, key, n):
+    """Positions the library is *known* to select (known findings (a) and (b) emulated); used only
+    to classify compound failures, never as an oracle."""
+    if key is None:
+        return list(range(n)), False
+    if not isinstance(key, dict):
+        return gen.positions_of(key, n)
+    t = key['t']
+    if ixrec['kind'] == 'auto' and t in ('auto_slice', 'auto_oob', 'absent'):
+        if t == 'auto_slice':
+            stop = key['stop']
+            return list(range(*slice(key['start'], None if stop is None else stop + 1).indices(n))), False
+        return gen.positions_of(key['v'], n)
+    if t == 'slice' and key['step'] is not None and key['step'] < 0 and key['stop'] is not None:
+        labels = ixrec['labels']
+        s_ = None if key['start'] is None else _pos_of_label(labels, key['start'])
+        e_ = _pos_of_label(labels, key['stop'])
+        return list(range(*slice(s_, e_ + 1, key['step']).indices(n))), False
+    return model_loc(ixrec, key)
+
+
 def tag_frame(case, f):
     t = tag(case, f)
     if t:
@@ -504,17 +525,13 @@ def tag_frame(case, f):
     n, m = len(rec['index']['labels']), len(rec['columns']['labels'])
     # (c) row subset x empty column selection
     if f.kind == 'raised:ErrorInitFrame' and f.where.startswith('frame.py'):
-        for k in _keys(case):
-            # (b) turned the column/row selection empty, then (c) applies
-            if k['t'] == 'slice' and k['step'] is not None and k['step'] < 0 and k['stop'] is not None and 'incorrect size' in f.detail:
-                return 'descending-label-slice-drops-stop'
         try:
             if case['route'] == 'iloc':
                 rp, rs = gen.positions_of(case['rk'], n)
                 cp, cs = gen.positions_of(case['ck'], m) if case['ck'] is not None else (list(range(m)), False)
             else:
-                rp, rs = model_loc(rec['index'], case['rk']) if case['rk'] is not None else (list(range(n)), False)
-                cp, cs = model_loc(rec['columns'], case['ck']) if case['ck'] is not None else (list(range(m)), False)
+                rp, rs = lib_positions(rec['index'], case['rk'], n)
+                cp, cs = lib_positions(rec['columns'], case['ck'], m)
             if not cp and not cs and not rs and len(rp) != n:
                 return 'row-subset-x-empty-columns-raises'
         except Exception:  # noqa: BLE001
